@@ -71,6 +71,20 @@ def explore(ctx):
         n = 4 if two_axes else (3 if multi else rng.choice([2, 3]))
         masters = [base] + [dsgen.perturb(rng, base, k, amount=40) for k in range(1, n)]
         names = [g["name"] for g in base["glyphs"]]
+        # a pure composite whose component 2x2 differs between masters in ONE entry only (gvar cannot vary a 2x2: the glyph
+        # has to be decomposed in every master, or the variable font does not reproduce that master)
+        diff2x2 = None
+        pure = [g["name"] for g in base["glyphs"] if g["components"] and not g["contours"] and g["name"] != "acutecomb"]
+        if i % 3 == 2 and pure:
+            which = ["yy", "xx", "yx", "xy"][(i // 3) % 4]
+            gname = rng.choice(pure)
+            g = next(x for x in masters[-1]["glyphs"] if x["name"] == gname)
+            b, t = g["components"][0]
+            t2 = {"yy": (t[0], t[1], t[2], t[3] * Fr(5, 4)), "xx": (t[0] * Fr(5, 4), t[1], t[2], t[3]),
+                  "yx": (t[0], t[1], t[2] + Fr(1, 8), t[3]), "xy": (t[0], t[1] + Fr(1, 8), t[2], t[3])}[which]
+            if (t2[0] * t2[3] - t2[1] * t2[2]) * (t[0] * t[3] - t[1] * t[2]) > 0 and all(abs(v) <= Fr(7, 4) for v in t2):
+                g["components"][0] = (b, t2 + (t[4], t[5]))
+                diff2x2 = (gname, which)
         vfeat = rng.random() < 0.5
         if multi:
             vfeat = (i // 6) % 2 == 0
@@ -117,9 +131,12 @@ def explore(ctx):
             ds, fonts = dsgen.make_designspace(rng, masters, lib, instances=False)
             locs = [dict(s.location) for s in ds.sources]
         fn = ["compileVariableTTF", "compileVariableCFF2"][(i // 2) % 2]
+        if diff2x2:
+            fn = "compileVariableTTF"       # (CFF2 has no composites: nothing to decide there)
         if multi:
             fn += "s"
         case = {"function": fn, "variableFeatures": vfeat, "lib": lib, "masters": n, "two_axes": two_axes, "font": jsonable(base),
+                "last_master": jsonable(masters[-1]), "component_2x2_differs_in_last_master": diff2x2,
                 "variable_fonts": ["VFFull: all sources", "VFWght: sources 0 and 2 (Width fixed at 100)"] if multi else None}
         tagmap = {a.name: a.tag for a in ds.axes}
         wkw = {}
@@ -159,6 +176,8 @@ def explore(ctx):
             ctx.klass("%s/vfeat=%s%s%s%s" % (fn, vfeat, "/2axes" if two_axes else "", "/propagateAnchors" if propagate else "",
                                              ("/" + vname) if vname else ""))
             ctx.nontriv((fn, i, k, vname, ctx.scale))
+            if diff2x2:
+                ctx.klass("component 2x2 differs between masters: %s only" % diff2x2[1])
             c2 = dict(case, master=k, location=loc, variable_font=vname or None)
             try:
                 inst = instancer.instantiateVariableFont(TTFont(io.BytesIO(vbytes)), dict(loc))
